@@ -9,6 +9,7 @@ T: fault-free and aborted runs are validated against BlockParser.tla: a rename w
 """
 import os
 import random
+import resource
 import re
 import shutil
 import signal
@@ -271,6 +272,48 @@ def main(ck, tier, w):
         if probs:
             ck.violation('file size limit %d on a %d byte output: %s' % (L, top, '; '.join(probs)),
                          {'fault': {'callback': 'csvdump', 'rlimit_fsize': L, 'largest_output': top}, 'observed': r.brief(), 'tags': []})
+
+    # a write failure that goes away again (quota exceeded for a while, then space freed): the file size limit is lowered to 64
+    # bytes while blocks 5..29 of 40 are dumped - 4 MB buffers are flushed in that window - and lifted before the end.  A failed write is
+    # a failed run: rows cannot be dropped silently
+    import subprocess
+    import time as _t
+    td_, _tb = build(w, 40, txs_fn=fat)          # 12 MB of tx_in rows: the 4 MB buffer is flushed around blocks 13 and 26
+    tgood = run.run_parser(td_.path, 'csvdump', dump=w.mk('out'), timeout=300, release=False).files
+    for rep in range(1 if quick else 3):
+        dd = clone(td_.path)
+        dump = w.mk('out')
+        env = dict(os.environ, RBP_VERIF_STALL='5:2500,30:3500', RUST_BACKTRACE='0')
+
+        def pre_():
+            signal.signal(signal.SIGXFSZ, signal.SIG_IGN)
+        pr = subprocess.Popen([run.BIN, '-d', dd, 'csvdump', dump], env=env, stdout=subprocess.PIPE, stderr=subprocess.PIPE, preexec_fn=pre_)
+        _t.sleep(1.2)
+        inf = resource.RLIM_INFINITY
+        try:
+            resource.prlimit(pr.pid, resource.RLIMIT_FSIZE, (64, inf))
+            _t.sleep(3.3)
+            resource.prlimit(pr.pid, resource.RLIMIT_FSIZE, (inf, inf))
+        except (OSError, ProcessLookupError):
+            pass
+        try:
+            out_, err_ = pr.communicate(timeout=120)
+        except subprocess.TimeoutExpired:
+            pr.kill()
+            out_, err_ = pr.communicate()
+        shutil.rmtree(dd, ignore_errors=True)
+        listing = sorted(os.listdir(dump))
+        finals = [f for f in listing if f.endswith('.csv')]
+        ck.evals()
+        ck.distinct(('transient', rep))
+        if pr.returncode == 0:
+            bad = [f for f in finals if open(os.path.join(dump, f), 'rb').read() != tgood.get(f)]
+            if bad or sorted(finals) != sorted(tgood):
+                ck.violation('csvdump with a write failure that went away again (limit of 64 bytes while blocks 5..29 were dumped): exit 0, final-named files %s, '
+                             'differing from the undisturbed output: %s' % (finals, bad), {'observed': {'rc': 0, 'stderr': err_.decode('utf-8', 'replace')[-300:], 'listing': listing}, 'tags': []})
+        elif finals:
+            ck.violation('csvdump with a transient write failure: exit %d but final-named files were left: %s' % (pr.returncode, finals),
+                         {'observed': {'rc': pr.returncode, 'listing': listing}, 'tags': []})
 
     # the same for the two UTXO dumps: more rows than the 4 MB writer buffer holds, so that on_complete itself issues large
     # direct writes and a limit can fall inside any of them
